@@ -44,6 +44,12 @@ var c01Probes = []c01Probe{
 		Tune: func(c *codegen.Configuration) { c.OutputOptions.SkipPrune = true }},
 	{Name: "P7_pass_through_path_parameter_leaves_err_unused", Targets: []string{"chi", "gin", "gorilla", "stdhttp", "fiber", "iris"},
 		Doc: op(`"paths":{"/a/{p}":{"get":{"parameters":[{"name":"p","in":"path","required":true,"content":{"text/plain":{"schema":{"type":"string"}}}}],"responses":{"204":{"description":"d"}}}}}`)},
+	{Name: "P7_pass_through_query_parameter_alone_leaves_err_unused", Targets: []string{"chi", "gin", "gorilla", "stdhttp", "fiber", "iris"},
+		Doc: op(`"paths":{"/a":{"get":{"parameters":[{"name":"p","in":"query","content":{"text/plain":{"schema":{"type":"string"}}}}],"responses":{"204":{"description":"d"}}}}}`)},
+	{Name: "P7_pass_through_header_parameter_alone_leaves_err_unused", Targets: []string{"chi", "gin", "gorilla", "stdhttp", "fiber", "iris"},
+		Doc: op(`"paths":{"/a":{"get":{"parameters":[{"name":"X-P","in":"header","content":{"text/plain":{"schema":{"type":"string"}}}}],"responses":{"204":{"description":"d"}}}}}`)},
+	{Name: "P7_pass_through_cookie_parameter_alone_leaves_err_unused", Targets: []string{"fiber"},
+		Doc: op(`"paths":{"/a":{"get":{"parameters":[{"name":"c","in":"cookie","content":{"text/plain":{"schema":{"type":"string"}}}}],"responses":{"204":{"description":"d"}}}}}`)},
 	{Name: "P7_iris_cookie_only_operation_leaves_err_unused", Targets: []string{"iris"},
 		Doc: op(`"paths":{"/a":{"get":{"parameters":[{"name":"c","in":"cookie","schema":{"type":"string"}}],"responses":{"204":{"description":"d"}}}}}`)},
 	{Name: "P8_schema_named_Client", Targets: []string{"client"},
